@@ -20,6 +20,7 @@ type Obligation struct {
 	Hyps   []string
 	Goal   string
 	Cover  bool // expect sat
+	Group  string // covers: one satisfiable member per group suffices
 	Trace  string
 	Static string // non-empty: decided without solver ("ok" or failure text)
 	Src    string
